@@ -185,6 +185,8 @@ pub fn grid(tier: Tier) -> Vec<Grid> {
 
 /// horizon of the default executions
 const LONG_HORIZON_S: u64 = 1800;
+/// horizon of the few executions that run past the wrap of the Delay_Req sequence ids at 2^-3 s
+const VERY_LONG_HORIZON_S: u64 = 9000;
 
 fn horizon(g: &Grid) -> u64 {
     (t_acq(g) / SEC) + 12 + 60
@@ -249,6 +251,25 @@ pub fn run(tier: Tier) -> i32 {
             (1, viols, o.settled_at, o.worst_after, 0)
         })
         .collect();
+    // a few very long default executions at the fastest rates: more than 65536 Delay_Req (the
+    // port's sequence ids wrap) while the loop stays locked
+    {
+        let long: Vec<Grid> = [(-150.0f64, 0u64), (150.0, 2_000)]
+            .iter()
+            .map(|&(ppm, j)| Grid { offset_ns: 500_000, ppm, delay_ns: 400_000, jitter_ns: j, log_sync: -3, log_delay: -3, pattern: if j == 0 { 0 } else { 2 }, tx_ts_latency_ns: 0, one_step: false })
+            .collect();
+        let r: Vec<R> = long
+            .par_iter()
+            .map(|g| {
+                let mut viols = vec![];
+                let o = run_one(g, &[], (0, 0), VERY_LONG_HORIZON_S);
+                viol(g, (0, VERY_LONG_HORIZON_S), &[], o.violations, &mut viols);
+                (1, viols, None, o.worst_after, 0)
+            })
+            .collect();
+        results.extend(r);
+        rep.cover("very_long_executions", json!({"count": long.len(), "horizon_s": VERY_LONG_HORIZON_S}));
+    }
     // bounds 1 and 2
     fn explore(g: &Grid, w: (u64, u64), h: u64, prefix: &mut Vec<(usize, usize)>, pts: &[usize], k: usize, execs: &mut u64, out: &mut Vec<(Vec<(usize, usize)>, Vec<(String, String)>)>) {
         if prefix.len() >= k {
@@ -364,7 +385,8 @@ pub fn replay(r: &serde_json::Value) {
         }
     };
     {
-        let hz = if dev.is_empty() && w == (0, 0) { LONG_HORIZON_S } else { horizon(&g) };
+        let hz = if dev.is_empty() && w == (0, VERY_LONG_HORIZON_S) { VERY_LONG_HORIZON_S } else if dev.is_empty() && w == (0, 0) { LONG_HORIZON_S } else { horizon(&g) };
+        let w = if w == (0, VERY_LONG_HORIZON_S) { (0, 0) } else { w };
         let spec = spec_of(&g, hz, w);
         let mut choices = Choices::with(&dev);
         let res = simulate(&spec, &[], &mut choices, SEC / 4);
